@@ -220,6 +220,18 @@ func Resume(
 			return err
 		}
 	}
+	// Whatever follows the last complete section is dead: null padding the scan stopped at, and the
+	// index bytes an interrupted Finalize may have left after it. Drop it, or a section torn by a
+	// later crash could pass the completeness probe above over those stale bytes.
+	if t, ok := rw.(interface{ Truncate(size int64) error }); ok {
+		end := sectionOffset
+		if !v1 {
+			end += int64(dataOffset)
+		}
+		if err := t.Truncate(end); err != nil {
+			return err
+		}
+	}
 	// Seek to the end of last skipped block where the writer should resume writing.
 	_, err = dataWriter.Seek(sectionOffset, io.SeekStart)
 	return err
